@@ -318,15 +318,16 @@ PROPS = {
         "trusted_base": [],
     },
     "C16": {
-        "level": "other", "module": "Resolvo.Props.C16",
-        "theorems": ["Resolvo.C16.added_fresh", "Resolvo.C16.added_distinct", "Resolvo.C16.captured_resolves", "Resolvo.C16.added_resolves",
+        "level": "proof", "module": "Resolvo.Props.C16", "imports": ["Resolvo.SubUniverse"],
+        "theorems": ["Resolvo.C16.snapshot_solvable_agree", "Resolvo.C16.snapshot_valid_agree", "Resolvo.solvable_agree", "Resolvo.valid_agree", "Resolvo.subAgreeB_sound",
+                     "Resolvo.C16.added_fresh", "Resolvo.C16.added_distinct", "Resolvo.C16.captured_resolves", "Resolvo.C16.added_resolves",
                      "Resolvo.C16.mapping_roundtrip", "Resolvo.C16.closure_mono"],
         "families": [("snapshot", {"quick": 5000, "thorough": 100000})],
-        "explanation": "PROVED: ids of added version sets never alias captured ids or each other; every captured id incl. the highest resolves to the captured set and every added id to its added set; Mapping serde round-trip keeps contents (C19); seeds are in every capture. "
-                       "CHECKED PER RUN: the real snapshot equals the model's capture field by field (solvables with name / order / hint / dependencies, version sets with matching sets, unions, packages with candidate order and exclusions, strings), before and after serde_json round-trip; "
-                       "verdict through the snapshot and through the deserialised snapshot = verified decideSolvable on the live data (with the added version sets), solutions valid against the live data, ids returned by add_package_requirement fresh. "
-                       "NOT PROVED: that the BFS closure is closed (fuel sufficiency) and order preservation for arbitrary providers (A16: sort induced by one total preorder per package).",
-        "assumptions": ["A16: sort_candidates is induced by one per-package key", "favored/locked are not represented by the format; union member order is not represented (hash set)"],
+        "explanation": "PROVED (Lean, spec level, all universes / problems / snapshots / added version sets): if the captured solvables and version sets pass the closure certificate subAgreeB (the part is closed under `candidates of a version set` and `version sets of the requirements and constrains of a solvable`, contains what the problem mentions, and the universe the snapshot denotes gives the live provider's answers on it), then the problem is solvable for the snapshot iff it is solvable for the live provider (snapshot_solvable_agree: same verdict) and a selection of captured solvables is valid for the snapshot iff it is valid against the live data (snapshot_valid_agree); ids of added version sets never alias captured ids or each other; every captured id incl. the highest resolves to the captured set and every added id to its added set; Mapping serde round-trip keeps contents (C19). With C01/C02 for the solver run on the snapshot provider this gives verdict and validity through a snapshot. "
+                       "TIE / CHECKED PER RUN: the real snapshot equals the model's capture field by field (solvables with name / order / hint / dependencies, version sets with matching sets, unions with their members in the provider's order, packages with candidate order and exclusions, strings), before and after serde_json round-trip; the certificate is evaluated on every generated snapshot (tag closure-certificate) and solutions must consist of captured solvables; "
+                       "verdict through the snapshot and through the deserialised snapshot = verified decideSolvable on the live data (with the added version sets), solutions valid against the live data, ids returned by add_package_requirement fresh; preference preserved: when the live first choices are mutually compatible (C07) the snapshot must yield exactly them. "
+                       "NOT PROVED: that the BFS capture always passes the certificate (fuel sufficiency; evaluated per run), order preservation for arbitrary sort functions (A16: sort induced by one total preorder per package).",
+        "assumptions": ["A16: sort_candidates is induced by one per-package key", "favored/locked are not represented by the format"],
     },
     "C17": {
         "facts": ["vector_header_agrees"],
